@@ -157,6 +157,7 @@ def oracle_c06(line, itoks):
     # established parks its retransmissions in the delay queue, where coap_remove_from_queue() does not look).
     ended_at = {}
     ended_ev = {}
+    prev_dump = None
     for ev, ts, dump in steps:
         f = ev.split(":")
         if f[0] in ("s", "S") and f[2] == "c" and any(SUB.match(t) and t != "sub=rej" for t in ts):
@@ -165,6 +166,14 @@ def oracle_c06(line, itoks):
             # delivered by this very event: every token of this step comes after the injection
             ended_ev[(int(f[1]), int(f[2]))] = {"a": "an ACK", "r": "a RST", "b": "an ACK (invalid code class)", "p": "an ACK (piggy-backed response)",
                                                 "q": "an ACK (with the request code 0.%02d)" % (int(f[3]) if f[0] == "q" and len(f) > 3 else 0)}[f[0]]
+        n_icmp = 0
+        if f[0] == "i" and not held_evs and prev_dump is not None and dump != prev_dump and \
+                not any(TX.match(t) or TXF.match(t) or (NACK.match(t) and NACK.match(t).group(4) != "icmp") for t in ts):
+            # no retransmission / give-up fell into the I/O step after the report: nothing but the report may have happened
+            return ("the ICMP error read from the socket of session %s changes the message layer although nothing was (re)transmitted "
+                    "or concluded: con_active / delay queues / send queue were %s and are %s - an ICMP report leaves in-flight "
+                    "counts, held messages, deadlines and retransmission counters alone" % (f[1], prev_dump, dump))
+        prev_dump = dump
         for t in ts:
             m = TX.match(t) or TXF.match(t)
             if m:
@@ -195,6 +204,24 @@ def oracle_c06(line, itoks):
                     txs.setdefault((s, mid), []).append(tm)
                 continue
             m = NACK.match(t)
+            if m and m.group(4) == "icmp":
+                # an ICMP error read from the socket is REPORTED (reason ICMP_ISSUE), it is not an outcome: the message
+                # stays queued, keeps its schedule and still ends in exactly one of ACK / RST / TOO_MANY_RETRIES
+                n_icmp += 1
+                if f[0] != "i":
+                    return "an ICMP_ISSUE report at t=%s during `%s`: no ICMP error was read from a socket" % (m.group(2), ev)
+                if n_icmp > 1:
+                    return ("the ICMP error read from the socket of session %s at t=%s is reported %d times: it is reported once, about "
+                            "the first message of the session waiting for its acknowledgement" % (f[1], m.group(2), n_icmp))
+                if m.group(1) == "nack":
+                    s, mid = int(m.group(3)), int(m.group(5))
+                    if subs.get((s, mid), 0) == 1 and (s, mid) in outcome:
+                        return ("the ICMP error at t=%s is reported about message %d of session %d, which had its outcome (%s) before" % (
+                            m.group(2), mid, s, outcome[(s, mid)]))
+                    if subs.get((s, mid), 0) == 1 and (s, mid) in accepted and (s, mid) not in txs:
+                        return ("the ICMP error at t=%s is reported about Confirmable %d of session %d, which has never been transmitted "
+                                "(it is waiting in the delay queue): nothing sent for it can have caused the error" % (m.group(2), mid, s))
+                continue
             if m and m.group(1) == "nack":
                 s, reason, mid = int(m.group(3)), m.group(4), int(m.group(5))
                 if subs.get((s, mid), 0) != 1:
@@ -238,7 +265,7 @@ def c06_end_of_run(sess, evs, steps, accepted, arrivals, last_arrival, subs, txs
     send queue) and every reply the scripted peer ever sent has been delivered.  From there on nothing will happen any
     more, so every accepted Confirmable - one that was held back by NSTART included - must be concluded: a message for
     which no ACK / RST / response ever arrived can only have been concluded by a NACK-handler call."""
-    if not steps or any(e.split(":")[0] in ("i", "k") for e in evs):
+    if not steps or any(e.split(":")[0] == "k" for e in evs):
         return None
     ev, ts, (ca, dq, q) = steps[-1]
     if ev.split(":")[0] not in ("g", "n", "t"):
